@@ -306,7 +306,7 @@ theorem gt1_startTagLoop : ∀ (fuel : Nat) (s s' : Stream) (opened : Bool) (tok
           simp only at k6 t6 hv
           have hvu := (t6.spanU k5.2 k6.2).2.1
           simp only at hvu
-          have hch := isXmlStr_chars T txt hG value hvu h7
+          have hch := gram_isXmlStr_chars T txt hG value hvu h7
           have k8 := (consumeByte_spec k6.2 q hq128).post _ h8
           have t8 := consumeByte_took q h8
           obtain ⟨attrs, s1, ats, rr, tr, ks', hs1, hlex, hats, htk⟩ := ih s8 s' opened t k8.1.2 h
